@@ -16,8 +16,8 @@ Conventions (stated here because they are the gauge the check fixes, see DESIGN 
   (fractional) pixel position p is psi_m(r - p), evaluated DIRECTLY from this sum at the
   shifted coordinates (no FFT shift theorem, no rounding of the position).
 * window: the N x M object pixels r0 + {-floor(N/2) .. ceil(N/2)-1}, r0 = position rounded
-  to the nearest pixel (ties do not occur: the generator keeps positions 0.02 px away from
-  half-integers), wrapped periodically into the object.
+  to the nearest pixel, wrapped periodically into the object.  Exact half-integer positions are
+  their own family in the check: there the anchor rule is stated (`anchor_pixel`).
 * multislice: exit = T_S * P_{S-1}[ ... T_2 * P_1[ T_1 * psi ] ], Fresnel propagator
   P_s = IFFT[ exp(-i pi lambda dz_s |k|^2) FFT[.] ],  |k|^2 = (k_r/(N d_r))^2 + (k_c/(M d_c))^2.
 * detector: I(k) = sum_modes |FFT[exit_m](k)|^2 / (N M)  (so that sum_k I = sum_r sum_m |exit_m|^2),
@@ -141,10 +141,32 @@ def fresnel_propagator(roi, pix, lam, dz):
     return np.exp(-1j * np.pi * lam * dz * (kr ** 2 + kc ** 2))
 
 
-def simulate(transmission, psi_k, positions_px, recip_sampling, energy, slice_thicknesses):
+def anchor_pixel(p: float, anchor: str = "half_up") -> int:
+    """the object pixel a probe window is anchored to.  Away from exact half-integers every
+    nearest-pixel rule agrees; AT an exact half-integer the data of this periodic-window model
+    depend on the rule (the window gains one row on one side and loses one on the other), so the
+    rule is part of the stated convention: "half_up" (floor(p + 1/2)) or "half_even" (IEEE
+    round-half-to-even, the convention of theorem C02_round_tie)."""
+    f = math.floor(p)
+    d = p - f
+    if d < 0.5:
+        return int(f)
+    if d > 0.5:
+        return int(f) + 1
+    if anchor == "half_up":
+        return int(f) + 1
+    if anchor == "half_even":
+        return int(f) if int(f) % 2 == 0 else int(f) + 1
+    raise ValueError(anchor)
+
+
+def simulate(transmission, psi_k, positions_px, recip_sampling, energy, slice_thicknesses, anchor="half_up",
+             steps=None):
     """4D data [n_pos, N, M] (zero frequency at (N//2, M//2)) for the periodic object
     `transmission` [S, H, W], probe Fourier modes `psi_k` [modes, N, M] and probe positions
-    (fractional object pixels) `positions_px` [n_pos, 2]"""
+    (fractional object pixels) `positions_px` [n_pos, 2].  `steps`: optional dict
+    {position index: {}} filled with the intermediate quantities of those positions (window rows /
+    columns, placed probe, transmission windows, exit wave) for per-step comparisons."""
     s_, h, w = transmission.shape
     _, n, m = psi_k.shape
     pix = pixel_size((n, m), recip_sampling)
@@ -155,17 +177,22 @@ def simulate(transmission, psi_k, positions_px, recip_sampling, energy, slice_th
     off_c = centred_freq_index(m)
     out = np.zeros((len(positions_px), n, m))
     for ip, (pr, pc) in enumerate(positions_px):
-        r0 = int(np.floor(pr + 0.5))
-        c0 = int(np.floor(pc + 0.5))
+        r0 = anchor_pixel(float(pr), anchor)
+        c0 = anchor_pixel(float(pc), anchor)
         rows = (r0 + off_r) % h
         cols = (c0 + off_c) % w
         psi = probe_real_space(psi_k, (pr - r0, pc - c0))        # [modes, N, M]
         wave = transmission[0][np.ix_(rows, cols)][None] * psi
+        if steps is not None and ip in steps:
+            steps[ip].update(anchor=(r0, c0), placed_probe=psi,
+                             windows=np.stack([transmission[s][np.ix_(rows, cols)] for s in range(s_)]))
         for s in range(1, s_):
             wave = np.fft.ifft2(np.fft.fft2(wave) * props[s - 1][None])
             wave = transmission[s][np.ix_(rows, cols)][None] * wave
         inten = np.sum(np.abs(np.fft.fft2(wave)) ** 2, axis=0) / (n * m)
         out[ip] = np.roll(inten, (n // 2, m // 2), axis=(0, 1))
+        if steps is not None and ip in steps:
+            steps[ip].update(exit_wave=wave)
     return out
 
 
